@@ -323,3 +323,124 @@ Proof.
     rewrite !Z.pow_add_r, <- !B_pow2 by lia. rewrite Hv. nia. }
   rewrite HL. lia.
 Qed.
+
+(** ** gen_biguint_below *)
+Theorem below_loop_spec f : forall bits bound s, 0 <= bits -> canon bound -> words s ->
+  below_loop f bits bound s = omap lift_u (spec_below_loop f bits (val bound) s).
+Proof.
+  induction f as [|f IH]; intros bits bound s Hb Hc Hs; [reflexivity|].
+  cbn [below_loop spec_below_loop]. rewrite gen_biguint_spec by auto.
+  destruct (spec_gen_biguint bits s) as [[c r]| |] eqn:G; cbn [omap bind]; try reflexivity.
+  destruct (spec_gen_biguint_ret _ _ _ _ Hb Hs G) as (ws & _ & _ & _ & _ & Hr & Hcb).
+  unfold lift_u at 1; cbn [fst snd].
+  rewrite cmp_slice_spec by (auto using enc_canon). rewrite enc_val by lia. cbn [bind].
+  unfold Z.ltb. destruct (c ?= val bound); auto.
+Qed.
+
+Theorem gen_biguint_below_spec bound s : canon bound -> words s ->
+  gen_biguint_below bound s = omap lift_u (spec_below (val bound) s).
+Proof.
+  intros Hc Hs. unfold gen_biguint_below, spec_below.
+  rewrite uis_zero_spec by auto.
+  pose proof (val_nonneg bound (proj1 Hc)) as Hv.
+  destruct (Z.eqb_spec (val bound) 0) as [E|E].
+  - replace (val bound <=? 0) with true by (symmetry; apply Z.leb_le; lia). reflexivity.
+  - replace (val bound <=? 0) with false by (symmetry; apply Z.leb_gt; lia).
+    cbn [negb assert_ bind].
+    assert (Hne : bound <> []) by (intros ->; apply E; reflexivity).
+    rewrite rand_bits_spec by auto.
+    apply below_loop_spec; auto. pose proof (Z.log2_nonneg (val bound)). lia.
+Qed.
+
+Lemma spec_below_loop_ret f : forall bits bound s c r, 0 <= bits -> words s ->
+  spec_below_loop f bits bound s = Ret (c, r) -> 0 <= c < bound /\ words r.
+Proof.
+  induction f as [|f IH]; intros bits bound s c r Hb Hs; [discriminate|].
+  cbn [spec_below_loop].
+  destruct (spec_gen_biguint bits s) as [[c1 r1]| |] eqn:G; cbn [bind]; try discriminate.
+  destruct (spec_gen_biguint_ret _ _ _ _ Hb Hs G) as (ws & _ & _ & _ & _ & Hr & Hcb).
+  destruct (Z.ltb_spec c1 bound) as [L|L].
+  - intros X; inversion X; subst. split; [lia|auto].
+  - apply IH; auto.
+Qed.
+
+Lemma spec_below_loop_no_panic f : forall bits bound s k, spec_below_loop f bits bound s <> Panic k.
+Proof.
+  induction f as [|f IH]; intros bits bound s k; [discriminate|].
+  cbn [spec_below_loop].
+  destruct (spec_gen_biguint bits s) as [[c1 r1]| |] eqn:G; cbn [bind]; try discriminate.
+  - destruct (c1 <? bound); [discriminate|apply IH].
+  - exfalso. eapply spec_gen_biguint_no_panic; eauto.
+Qed.
+
+Theorem spec_below_ret bound s c r : words s -> spec_below bound s = Ret (c, r) ->
+  0 <= c < bound /\ words r.
+Proof.
+  intros Hs. unfold spec_below. destruct (bound <=? 0); [discriminate|].
+  apply spec_below_loop_ret; auto. pose proof (Z.log2_nonneg bound). lia.
+Qed.
+
+Theorem spec_below_panic bound s k : spec_below bound s = Panic k <-> (bound <= 0 /\ k = EmptyRange).
+Proof.
+  unfold spec_below. destruct (Z.leb_spec bound 0) as [L|L].
+  - split; [intros X; inversion X; auto|intros [_ ->]; reflexivity].
+  - split; [intros X; exfalso; eapply spec_below_loop_no_panic; eauto|lia].
+Qed.
+
+(** The first candidate below the bound: [rej] are the rejected candidates (each [>= bound]),
+    [acc] is the first accepted one. *)
+Definition chunk_ok (bits : Z) (c : list Z) : Prop :=
+  Z.of_nat (length c) = nwords bits.
+
+Theorem spec_below_loop_first bits bound rej : forall f acc rest, 0 <= bits ->
+  Forall (fun c => chunk_ok bits c /\ bound <= cand bits c) rej ->
+  chunk_ok bits acc -> cand bits acc < bound -> (length rej < f)%nat ->
+  spec_below_loop f bits bound (concat rej ++ acc ++ rest) = Ret (cand bits acc, rest).
+Proof.
+  induction rej as [|c rej IH]; intros f acc rest Hb Hrej Hacc Hlt Hf;
+    (destruct f as [|f]; [cbn [length] in Hf; lia|]); cbn [spec_below_loop concat].
+  - cbn [app]. rewrite spec_gen_biguint_app by auto. cbn [bind].
+    replace (cand bits acc <? bound) with true by (symmetry; apply Z.ltb_lt; lia). reflexivity.
+  - inversion Hrej as [|? ? [Hc Hge] Hrej']; subst.
+    rewrite <- app_assoc. rewrite spec_gen_biguint_app by auto. cbn [bind].
+    replace (cand bits c <? bound) with false by (symmetry; apply Z.ltb_ge; lia).
+    apply IH; auto. cbn [length] in Hf. lia.
+Qed.
+
+Lemma length_concat_ge bits (rej : list (list Z)) : 1 <= nwords bits ->
+  Forall (fun c => chunk_ok bits c) rej -> (length rej <= length (concat rej))%nat.
+Proof.
+  intros Hk. induction 1 as [|c rej Hc _ IH]; [cbn; lia|].
+  cbn [concat length]. rewrite app_length. unfold chunk_ok in Hc. lia.
+Qed.
+
+Theorem spec_below_first bound rej acc rest : 0 < bound ->
+  let bits := Z.log2 bound + 1 in
+  Forall (fun c => chunk_ok bits c /\ bound <= cand bits c) rej ->
+  chunk_ok bits acc -> cand bits acc < bound ->
+  spec_below bound (concat rej ++ acc ++ rest) = Ret (cand bits acc, rest).
+Proof.
+  intros Hb bits Hrej Hacc Hlt. unfold spec_below.
+  replace (bound <=? 0) with false by (symmetry; apply Z.leb_gt; lia).
+  pose proof (Z.log2_nonneg bound) as Hl.
+  apply spec_below_loop_first; auto; [subst bits; lia|].
+  assert (Hk : 1 <= nwords bits) by (subst bits; unfold nwords; lia).
+  assert (Hrej' : Forall (fun c => chunk_ok bits c) rej)
+    by (eapply Forall_impl; [|exact Hrej]; cbn; intros c [H _]; exact H).
+  pose proof (length_concat_ge bits rej Hk Hrej'). rewrite app_length. lia.
+Qed.
+
+Theorem below_first bound rej acc rest : canon bound -> bound <> [] ->
+  let bits := Z.log2 (val bound) + 1 in
+  Forall (fun c => chunk_ok bits c /\ words c /\ val bound <= cand bits c) rej ->
+  chunk_ok bits acc -> words acc -> cand bits acc < val bound -> words rest ->
+  gen_biguint_below bound (concat rej ++ acc ++ rest) = Ret (enc (cand bits acc), rest).
+Proof.
+  intros Hc Hne bits Hrej Hacc Hwa Hlt Hwr.
+  assert (Hpos : 0 < val bound) by (apply canon_val_pos; auto).
+  rewrite gen_biguint_below_spec; auto.
+  - rewrite spec_below_first; auto.
+    eapply Forall_impl; [|exact Hrej]. cbn. intros c (H1 & _ & H3). auto.
+  - apply words_app. split; [|apply words_app; auto].
+    apply Forall_concat. eapply Forall_impl; [|exact Hrej]. cbn. intros c (_ & H2 & _). exact H2.
+Qed.
